@@ -90,7 +90,47 @@ fn random_fields(rng: &mut Rng, depth: u32, der: bool) -> (Dyn, Vec<Prog>, Vec<i
     (Dyn::Seq(2, encs), decs, log)
 }
 
+/// 402: the string types, which the encoder-tree language does not carry as typed fields: a value built
+/// from text (or octets), written by its own encoder in a mode and read back by its own reader in the same
+/// mode (and DER output in BER mode) is the same value; the octets are a well-formed encoding.
+fn string_roundtrip(em: &mut Emitter, cs: u8, m: u8, text: &str) {
+    use bcder::{Ia5String, NumericString, OctetString, PrintableString, Utf8String, Mode};
+    use bcder::decode::{Constructed, IntoSource};
+    use std::str::FromStr;
+    em.case(402, &[num_arg(cs), num_arg(m), bytes_arg(&text.as_bytes()[..text.len().min(60)]), num_arg(text.len())], || {
+        let mode = modeof(m);
+        macro_rules! rt { ($t:ty) => {{
+            let s = match <$t>::from_str(text) { Ok(s) => s, Err(_) => return false };
+            let mut w = Vec::new(); s.encode_ref().write_encoded(mode, &mut w).unwrap();
+            let l = s.encode_ref().encoded_len(mode);
+            let mut ok = l == w.len() && crate::gen::ref_parse_seq(m, &w, crate::gen::Ctx::Top, 0).map(|(_, u)| u == w.len()).unwrap_or(false);
+            let mut dms = vec![mode]; if m == 2 { dms.push(Mode::Ber); }
+            for dm in dms { match Constructed::decode(w.as_slice().into_source(), dm, |c| <$t>::take_from(c)) {
+                Ok(back) => { if back.to_string() != text || back != s { ok = false; } } Err(_) => ok = false } }
+            ok
+        }}; }
+        let r = catch(|| match cs { 0 => rt!(Utf8String), 1 => rt!(NumericString), 2 => rt!(PrintableString), 3 => rt!(Ia5String),
+            _ => { let s = OctetString::new(bytes::Bytes::copy_from_slice(text.as_bytes()));
+                   let mut w = Vec::new(); s.encode_ref().write_encoded(mode, &mut w).unwrap();
+                   let mut ok = s.encode_ref().encoded_len(mode) == w.len();
+                   let mut dms = vec![mode]; if m == 2 { dms.push(Mode::Ber); }
+                   for dm in dms { match Constructed::decode(w.as_slice().into_source(), dm, |c| OctetString::take_from(c)) { Ok(b) => if b != s { ok = false }, Err(_) => ok = false } }
+                   ok } });
+        (Ints::new().n(1), match r { Some(true) => Oracle::Pass, Some(false) => Oracle::Fail("string-does-not-round-trip".into()), None => Oracle::Fail("string-codec-panics".into()) }, true)
+    });
+}
+
 pub fn run(em: &mut Emitter, rng: &mut Rng, thorough: bool) {
+    // ---- 402: strings ----
+    let planes: [char; 16] = ['a', '\u{7f}', '\u{80}', '\u{7ff}', '\u{800}', '\u{d7ff}', '\u{e000}', '\u{ffff}', '\u{10000}', '\u{3ffff}', '\u{40000}', '\u{fffff}', '\u{100000}', '\u{10ffff}', '€', '😀'];
+    for _ in 0..(if thorough { 20_000 } else { 1_500 }) {
+        let cs = rng.below(5) as u8;
+        let n = match rng.below(8) { 0 => 0, 1 => 1, 2 => 127, 3 => 128, 4 => rng.range(250, 260) as usize, _ => rng.range(2, 30) as usize };
+        let text: String = (0..n).map(|_| match cs { 0 | 4 => *rng.pick(&planes), 1 => *rng.pick(&['0', '5', '9', ' ']), 2 => *rng.pick(&['A', 'z', '0', '\'', '(', ')', '+', ',', '-', '.', '/', ':', '=', '?', ' ']), _ => (rng.below(128) as u8) as char }).collect();
+        for m in [0u8, 2] { string_roundtrip(em, cs, m, &text); }
+    }
+    for &c in &planes { for m in [0u8, 2] { string_roundtrip(em, 0, m, &c.to_string()); string_roundtrip(em, 4, m, &c.to_string()); } }
+
     for _ in 0..(if thorough { 240_000 } else { 6_000 }) {
         let m = rng.below(3) as u8;
         OUTER_MODE.store(m, std::sync::atomic::Ordering::Relaxed);
